@@ -65,18 +65,54 @@ META = {
  "C29-2": dict(property="C29", breaks="the evicted entry is the least recently used: promote() uses swap_remove_back, which scrambles the recency order",
    needs="capacity >= 4, a hit on an entry at queue index 1..len-3, then a put of a new key",
    caught_by="C29 (classes seq-mismatch, not-linearizable)", first_run="caught"),
+ # ---- third batch (scratch directories SEED/1 and SEED/2 of fresh worktrees; see SRC below)
+ "C01-3": dict(property="C01", breaks="reader never panics: ObjectStream::parse_objects adds /First and a header offset in u32 without the overflow check it used to have",
+   needs="an object stream whose /First plus a header-table offset reaches 2^32 (e.g. /First 4294967295 and a first offset of 1), resolved through a type-2 xref entry, in a build with overflow checks",
+   caught_by="C01 (class panic@object_stream.rs:97)", first_run="MISSED; caught after one case in four became a header-field sweep over small synthetic files with an object stream, synthetic object streams may start their first object above offset 0, and navigation also asks for compressed object numbers"),
+ "C01-4": dict(property="C01", breaks="reader terminates within bounded memory: NUL ends names/operators in the content tokenizer but is not skipped as white-space, so the tokenizer returns empty operators forever",
+   needs="a content stream with a NUL byte where a token would start",
+   caught_by="C01 (class alloc-refused-single)", first_run="caught"),
+ "C02-3": dict(property="C02", breaks="same page count / objects: object streams numbered right after the last object, the xref stream gets the number of the second object stream",
+   needs="object streams on and more than 100 compressible objects",
+   caught_by="C02 (class library-readback:page-count-differs); C03 (independent-checker:object-syntax)", first_run="caught"),
+ "C02-4": dict(property="C02", breaks="same operands: an integer fast path for m/l/c/re operands prints the integer part without sign, so -0.5 is written 0.50",
+   needs="a path operand strictly between -1 and 0",
+   caught_by="C02 (class authored-vs-readback:path-operands-differ)", first_run="MISSED; caught after the paint reference model also carried path geometry and the generator drew one operand in five from the edges of the formatter's domain"),
+ "C03-3": dict(property="C03", breaks="type-2 xref entries: the index within the object stream keeps counting across object streams",
+   needs="xref stream + object streams, more than 100 compressible objects",
+   caught_by="C03 (class independent-checker:object-syntax)", first_run="caught"),
+ "C03-4": dict(property="C03", breaks="offsets of an appended section: PdfWriter's incremental writers add an end-of-line after a base that lacks one without counting it",
+   needs="an incremental call on a base ending exactly at %%EOF",
+   caught_by="C17 (class independent-reader:chain-invalid), with patch_on_688ca401.diff (the same defect re-created on top of the genuine fix the investigation led to)", first_run="MISSED by C03 (which writes no incremental files) and by C17 (bases always ended with an end-of-line); caught after C17's bases gained legal tail variants"),
+ "C05-3": dict(property="C05", breaks="owner password unlocks: AES-256 passwords truncated to 127 bytes in seven of eight R5 functions (/UE still hashes the full password)",
+   needs="AES-256, user password of 128 bytes or more, opened with the owner password",
+   caught_by="C05 (class owner-password:unreadable)", first_run="MISSED; caught after password lengths around 127 bytes were generated"),
+ "C05-4": dict(property="C05", breaks="annotation text reads back: every /Contents string is exempted from encryption by key name while the reader decrypts all strings",
+   needs="an encrypted document with an annotation that has text",
+   caught_by="C05 (class user-password:annotation-differs)", first_run="caught"),
+ "C20-3": dict(property="C20", breaks="same Document value serialises identically twice: write_catalog appends form-manager field references without the already-present guard",
+   needs="fields owned by a FormManager, widgets linked by reference, the same Document written twice",
+   caught_by="C20 (class same-document-value-serialises-differently-the-second-time)", first_run="caught"),
+ "C20-4": dict(property="C20", breaks="output independent of hash seeds: ICC colour spaces are given object ids in HashMap iteration order",
+   needs="two or more ICC colour spaces on a page",
+   caught_by="C20 (class output-depends-on-entropy)", first_run="caught"),
 }
+
+# third-batch ids live in SEED/1, SEED/2 of worktrees named like the first batch's
+SRC = {f"{p}-{n + 2}": f"/tmp/wt-{p}/SEED/{n}" for p in ("C01", "C02", "C03", "C05", "C20") for n in (1, 2)}
 
 def main():
     out_root = "/verif/seeded"
     for sid, m in META.items():
         prop, n = sid.split("-")
-        src = f"/tmp/wt-{prop}/SEED/{n}"
+        dst = os.path.join(out_root, sid)
+        if sid not in SRC and os.path.isdir(dst):
+            continue  # collected earlier; its scratch directory has been reused since
+        src = SRC.get(sid, f"/tmp/wt-{prop}/SEED/{n}")
         if not os.path.isdir(src):
             continue
-        dst = os.path.join(out_root, sid)
         os.makedirs(dst, exist_ok=True)
-        for f in ("patch.diff", "demo_test.rs", "notes.md"):
+        for f in ("patch.diff", "patch_on_688ca401.diff", "demo_test.rs", "notes.md"):
             if os.path.exists(os.path.join(src, f)):
                 shutil.copy(os.path.join(src, f), os.path.join(dst, f))
         suite = {}
